@@ -268,6 +268,47 @@ pub fn alias_envs(prefix: &str) -> Vec<(Env, Ty)> {
     out
 }
 
+/// Upgrade / downgrade pairs in which the type that decides a rule's side condition ("is this field, argument or
+/// result optional?", "is this the same primitive?") sits behind a definition or a chain of two: for every alias
+/// environment of `alias_envs` and every shape with the alias at a record field below / between / above other
+/// fields, as trailing function argument and result, and as a service method's type component: the pair
+/// (one-step neighbour, shape) and its converse. Returned as (environment, s, t).
+pub fn alias_neighbour_pairs(prefix: &str) -> Vec<(Env, Ty, Ty)> {
+    let mut out: Vec<(Env, Ty, Ty)> = vec![];
+    let mut seen = std::collections::HashSet::new();
+    for (env, t0) in alias_envs(prefix) {
+        // the alias itself is the first record field of the fourth shape; recover it from the opt shape
+        let x = match &t0 {
+            Ty::Opt(inner) if matches!(**inner, Ty::Var(_)) => (**inner).clone(),
+            _ => continue,
+        };
+        let shapes = vec![
+            Ty::record(vec![(0, x.clone()), (1, p(P::Nat))]),
+            Ty::record(vec![(0, p(P::Text)), (1, x.clone()), (2, p(P::Nat))]),
+            Ty::record(vec![(0, p(P::Text)), (5, x.clone())]),
+            Ty::variant(vec![(0, x.clone()), (1, p(P::Nat))]),
+            Ty::func(vec![p(P::Nat), x.clone()], vec![], vec![]),
+            Ty::func(vec![], vec![p(P::Nat), x.clone()], vec![]),
+            Ty::func(vec![x.clone()], vec![x.clone()], vec![Mode::Query]),
+            Ty::service(vec![("m".to_string(), Ty::func(vec![p(P::Nat), x.clone()], vec![x.clone()], vec![]))]),
+            Ty::opt(x.clone()),
+            Ty::vec(x.clone()),
+        ];
+        for t in shapes {
+            let mut ns = mutants(&t);
+            ns.push(t.clone());
+            for m in ns {
+                for (a, b) in [(m.clone(), t.clone()), (t.clone(), m.clone())] {
+                    if seen.insert((env.to_string(), a.to_string(), b.to_string())) {
+                        out.push((env.clone(), a, b));
+                    }
+                }
+            }
+        }
+    }
+    out
+}
+
 /// All single-definition mutants of an environment (Appendix B: retarget / alter one
 /// definition), keeping only closed environments.
 pub fn env_mutants(e: &Env) -> Vec<Env> {
@@ -489,4 +530,58 @@ pub fn big_val(env: &Env, t: &Ty, ctr: &mut u64, width: usize, fuel: usize) -> O
         Ty::Service(_) => Val::Service(vec![4, 3, 2, 1]),
         Ty::Class(..) | Ty::Future(..) => return None,
     })
+}
+
+/// Length boundaries of everything the wire format prefixes with a length: text, blob, vectors, method
+/// names. Lengths on both sides of the one-byte / two-byte LEB128 boundary and of 8- and 16-bit wrap-around
+/// (127, 128, 255, 256, 257, 300, 16383, 16384, 65535, 65536), ASCII and with a multi-byte character straddling the
+/// boundary, each on its own, under opt, as a record field next to another field, as a vector element
+/// and as a variant payload.
+pub fn length_boundary_cases() -> Vec<(Env, Ty, refmodel::val::Val)> {
+    use refmodel::val::Val;
+    let lens: [usize; 10] = [127, 128, 255, 256, 257, 300, 16383, 16384, 65535, 65536];
+    let mut base: Vec<(Ty, Val)> = vec![];
+    for n in lens {
+        // text: ASCII, and the same byte length with a 2-byte character ending exactly at / straddling the boundary
+        base.push((p(P::Text), Val::Text("x".repeat(n))));
+        base.push((p(P::Text), Val::Text(format!("{}\u{e9}", "y".repeat(n - 2)))));
+        base.push((p(P::Text), Val::Text(format!("{}\u{e9}z", "y".repeat(n - 1)))));
+        if n <= 300 {
+            base.push((Ty::vec(p(P::Nat8)), Val::blob(&(0..n).map(|i| (i % 251) as u8).collect::<Vec<u8>>())));
+            base.push((Ty::vec(p(P::Nat16)), Val::Vec((0..n).map(|i| Val::NatN(16, (i * 257 % 65536) as u64)).collect())));
+            base.push((Ty::vec(p(P::Null)), Val::Vec(vec![Val::Null; n])));
+            base.push((Ty::vec(p(P::Bool)), Val::Vec((0..n).map(|i| Val::Bool(i % 3 == 0)).collect())));
+        }
+        if n <= 65536 {
+            let ft = Ty::Func(FuncTy { args: vec![p(P::Nat)], rets: vec![], modes: vec![] });
+            base.push((ft.clone(), Val::Func(vec![0xca, 0xff, 0xee], "m".repeat(n))));
+            base.push((ft, Val::Func(vec![], format!("{}\u{20ac}", "n".repeat(n - 1)))));
+        }
+    }
+    // big numbers whose LEB128 form is long (130 and 300 bytes)
+    for bits in [7usize * 129 + 1, 7 * 299 + 3] {
+        let big: num_bigint::BigUint = num_bigint::BigUint::from(1u8) << bits;
+        base.push((p(P::Nat), Val::Nat(big.clone())));
+        base.push((p(P::Int), Val::Int(-num_bigint::BigInt::from(big))));
+    }
+    let empty = Env::new();
+    let mut out = vec![];
+    for (t, v) in base {
+        let long = match &v {
+            Val::Text(s) => s.len() > 300,
+            Val::Func(_, m) => m.len() > 300,
+            _ => false,
+        };
+        out.push((empty.clone(), t.clone(), v.clone()));
+        if long {
+            // the very long ones only on their own and under opt
+            out.push((empty.clone(), Ty::opt(t.clone()), Val::some(v.clone())));
+            continue;
+        }
+        out.push((empty.clone(), Ty::opt(t.clone()), Val::some(v.clone())));
+        out.push((empty.clone(), Ty::record(vec![(1, t.clone()), (2, p(P::Nat8))]), Val::record(vec![(1, v.clone()), (2, Val::NatN(8, 9))])));
+        out.push((empty.clone(), Ty::vec(t.clone()), Val::Vec(vec![v.clone(), v.clone()])));
+        out.push((empty.clone(), Ty::variant(vec![(0, p(P::Null)), (5, t.clone())]), Val::Variant(5, Box::new(v.clone()))));
+    }
+    out
 }
